@@ -37,6 +37,11 @@ CHECKS = {
             "Generated-input search over workspace shapes, override sets and listing orders; each clause of the statement is a separate executable invariant with its own signature.",
             "Trusted: documented per-type defaults transcribed in vlib/refmodel.py; random (not exhaustive) permutations.",
             "DESIGN.md#c12"),
+    "C20": ("fault_enumeration",
+            "fault injection: generated well-formed spec + one (or two) structural faults from an explicit 12-class catalogue at generated positions, plus exhaustive (fault x position) enumeration on a fixed spec; oracle = refusal with a pyhf exception type at both entry points",
+            "Fault enumeration: every catalogue class is injected at every applicable position of a fixed 2-channel spec (exhaustive part) and at generated positions of thousands of generated specs; acceptance or a foreign exception type is a violation with signature C20/<fault_variant>/<entry point>/<outcome>.",
+            "Trusted: the fault injectors produce genuinely inconsistent specs (pairs that can cancel are discarded by construction); the shapefactor-width class is a recorded known finding.",
+            "DESIGN.md#c20"),
 }
 
 NOT_YET = "check not built yet in this session (work in progress; the design in DESIGN.md section 5 applies)"
